@@ -195,11 +195,16 @@ func (c *FnCtx) contractResult(st *State, rt types.Type, prefix string) Val {
 	}
 	v := c.freshVal(st, rt, prefix)
 	cur := st.alloc
+	prev := st.alloc
 	changed := false
 	walkLeaves(v, "", func(path string, leaf Val) {
 		if leaf.K == KRef || strings.HasSuffix(path, "#base") {
 			cur = ite(eq(leaf.S, "0"), cur, sto(cur, leaf.S, "true"))
 			changed = true
+			if leaf.K != KRef {
+				// a backing array allocated by the callee is not an object of any struct type
+				st.assume(or(eq(leaf.S, "0"), sel(prev, leaf.S), eq("(rtype "+leaf.S+")", "0")))
+			}
 			if leaf.K == KRef {
 				if pt, ok := leaf.T.Underlying().(*types.Pointer); ok {
 					if tid := c.refTypeID(pt.Elem()); tid != "" {
